@@ -11,6 +11,11 @@ FAMS = [("Sat3", {}), ("Sat3", {}), ("Bool", {}), ("RatU", {"eps_acyclic": True}
 
 
 def generate(rng, tier, shard, nshards):
+    for M in aops.tlc_automata(shard, nshards):           # (C) the exhaustive family enumerated by TLC
+        for s in ([], ["a"], ["a", "a"]):
+            yield aops.event("wcall", {"sr": "Sat3", "M": M, "s": s}, site="WFSA.__call__", feat="tlc-family")
+        yield aops.event("wop", {"sr": "Sat3", "A": M, "fn": "epsremove", "sigma": ["a"], "L": 3}, site="epsremove", feat="tlc-family")
+        yield aops.event("wtotal", {"sr": "Sat3", "M": M}, site="total_weight", feat="tlc-family")
     n = 40 if tier == "quick" else 400
     L = 3 if tier == "quick" else 4
     for i in range(n):
@@ -46,28 +51,10 @@ def selftests(events, rng):
     return out
 
 
-MCA_CFG = """CONSTANTS SRNAME = "Sat3"
- L = %d
-INIT Init
-NEXT Next
-INVARIANT ClosedFormAgrees
-INVARIANT TotalIsSumOfAll
-INVARIANT ReverseIsReverse
-CHECK_DEADLOCK FALSE
-"""
-
-
-def model_check(report, tier):
-    from common import run_tlc, MachineryError
-    res = run_tlc("MCAutomata", MCA_CFG % (2 if tier == "quick" else 4), timeout=3000)
-    if not res.ok or res.left != 0:
-        raise MachineryError("MCAutomata: the automaton oracles disagree with each other (spec-level):\n" + res.errhead)
-    report.add_tlc(res, "MCAutomata: all 2304 two-state automata over {a, eps}: ClosedFormAgrees, TotalIsSumOfAll, ReverseIsReverse")
-
-
 def run(report, tier, seed):
-    model_check(report, tier)
-    standard_run(report, "C11", MODULE, tier, seed, selftests,
+    from common import automata_core
+    afam = automata_core(report, 2 if tier == "quick" else 4)
+    standard_run(report, "C11", MODULE, tier, seed, selftests, extra_env={"VERIF_AFAMILY": afam},
                  sample_keys=("op", "sr", "M", "A", "s", "res", "site"),
                  rule=("random automata (2-4 states, parallel arcs, epsilon arcs and epsilon cycles, several initial/final "
                        "states, dead and unreachable states) over Sat3/Sat2/Bool (epsilon cycles summed exactly), exact "
